@@ -17,10 +17,16 @@ import copy
 
 from .cfg import CFG, suspension_may_raise, reaching_defs, defs_reaching, \
     _walk_no_nested
-from .inline import Inliner
+from .inline import Inliner, acopy
 
 
 PURE_CALLS = {"len", "int", "bool", "abs", "min", "max"}
+
+
+def _selects_callable(e):
+    return isinstance(e, ast.IfExp) and isinstance(
+        e.body, (ast.Name, ast.Attribute)) and isinstance(
+            e.orelse, (ast.Name, ast.Attribute))
 
 
 def _pure(e, allow_call=False):
@@ -29,6 +35,8 @@ def _pure(e, allow_call=False):
                 e.func, (ast.Name, ast.Attribute)):
         return True
     for n in ast.walk(e):
+        if isinstance(n, ast.IfExp) and not _selects_callable(n):
+            return False       # a computed value keeps its name
         if isinstance(n, (ast.Await, ast.Yield, ast.YieldFrom, ast.Lambda,
                           ast.NamedExpr, ast.ListComp, ast.SetComp,
                           ast.DictComp, ast.GeneratorExp, ast.Starred)):
@@ -54,13 +62,13 @@ class _Subst(ast.NodeTransformer):
         v = self.repl.get(id(n))
         if v is not None:
             self.count += 1
-            return ast.copy_location(copy.deepcopy(v), n)
+            return ast.copy_location(acopy(v), n)
         return n
 
 
 def propagate_aliases(fn, rounds=4):
     """Returns a copy of fn with valid alias uses replaced."""
-    fn = copy.deepcopy(fn)
+    fn = acopy(fn)
     for _ in range(rounds):
         if not _one_round(fn):
             break
@@ -103,8 +111,9 @@ def _one_round(fn):
                 a.targets) == 1 and isinstance(a.targets[0], ast.Name) and \
                 _pure(a.value, allow_call=single_use_param) and \
                 name not in _names(a.value):
-            if isinstance(a.value, ast.Constant):
-                continue          # constants are not worth it
+            if isinstance(a.value, ast.Constant) and not getattr(
+                    a, "_inline_param", False):
+                continue          # named constants keep their name
             cands[name] = n
     repl = {}
     for name, dn in cands.items():
@@ -177,11 +186,11 @@ def _lift(fn):
         idx = [i for i, n in enumerate(ast.walk(s)) if n is e][0]
         outs = []
         for br in ("body", "orelse"):
-            c = copy.deepcopy(s)
+            c = acopy(s)
             ce = list(ast.walk(c))[idx]
             c = _ReplaceNode(ce, getattr(ce, br)).visit(c)
             outs.append(split(c))
-        test = copy.deepcopy(e.test)
+        test = acopy(e.test)
         return ast.copy_location(ast.If(test, [outs[0]], [outs[1]]), s)
 
     def block(stmts):
@@ -197,6 +206,66 @@ def _lift(fn):
                     h.body = block(h.body)
             if isinstance(s, (ast.Expr, ast.Assign, ast.Return)):
                 s = split(s)
+            out.append(s)
+        return out
+    fn.body = block(fn.body)
+    return fn
+
+
+def hoist_suspensions(fn):
+    """`x = (yield E).attr` -> `__y1 = yield E; x = __y1.attr` (also await):
+    a suspension that is not the whole right-hand side / statement is given
+    its own statement, provided everything evaluated before it is pure."""
+    counter = [0]
+
+    def whole(s):
+        v = None
+        if isinstance(s, ast.Expr):
+            v = s.value
+        elif isinstance(s, (ast.Assign, ast.AnnAssign, ast.AugAssign,
+                            ast.Return)):
+            v = s.value
+        return v
+
+    def find(s):
+        v = whole(s)
+        if v is None:
+            return None
+        for n in _walk_no_nested(v):
+            if n is v:
+                continue
+            if isinstance(n, (ast.Yield, ast.YieldFrom, ast.Await)):
+                # operands of the suspension itself must not suspend
+                inner = n.value
+                if inner is not None and any(isinstance(x, (
+                        ast.Yield, ast.YieldFrom, ast.Await))
+                        for x in ast.walk(inner)):
+                    continue
+                return n
+        return None
+
+    def block(stmts):
+        out = []
+        for s in stmts:
+            for fld in ("body", "orelse", "finalbody"):
+                if isinstance(getattr(s, fld, None), list) and not isinstance(
+                        s, (ast.FunctionDef, ast.AsyncFunctionDef,
+                            ast.ClassDef)):
+                    setattr(s, fld, block(getattr(s, fld)))
+            if isinstance(s, ast.Try):
+                for h in s.handlers:
+                    h.body = block(h.body)
+            while True:
+                n = find(s)
+                if n is None:
+                    break
+                counter[0] += 1
+                tmp = "__susp_%d" % counter[0]
+                pre = ast.copy_location(ast.Assign(
+                    [ast.Name(tmp, ast.Store())], n), s)
+                s = _ReplaceNode(n, ast.copy_location(
+                    ast.Name(tmp, ast.Load()), n)).visit(s)
+                out.append(pre)
             out.append(s)
         return out
     fn.body = block(fn.body)
@@ -219,6 +288,10 @@ def normalise(fn, world=None, modname=None, cls=None, primitives=(),
         info["inlined"] = inl.inlined
     parent = getattr(fn, "_parent", None)
     if aliases:
+        if fn is not None and "inlined" in info and not info["inlined"]:
+            fn = acopy(fn)
+        fn = hoist_suspensions(fn)
+        ast.fix_missing_locations(fn)
         fn = propagate_aliases(fn)
         fn = _lift(fn)
         ast.fix_missing_locations(fn)
